@@ -218,7 +218,7 @@ def run(ctx):
                     run_history(ctx, defn, list(history), sh, 16383, apids2)
     # ---- random long histories over 3 APIDs -------------------------------------------------------------
     apids3 = (0, 7, 1024)
-    for i in range(ctx.size(1500, 60_000) // ctx.nshards):
+    for i in range(ctx.size(4000, 600_000) // ctx.nshards):
         L = rng.randrange(6, 61)
         hist = []
         for _ in range(L):
